@@ -505,3 +505,19 @@ Lemma g_launch_error :
             = LDone (Some (LFailed CAllPeers)) m /\
             pending (c_sched (m_c m)) = 1 /\ s_db (c_sched (m_c m)) = [].
 Proof. eexists. split; [vm_compute; reflexivity | split; vm_compute; reflexivity]. Qed.
+
+(* ---- one database per trie kind ------------------------------------------------------
+   core.BlockChain.TrieBackingDb gives every kind of trie its own database (the plain
+   chain database for state / validator / staking, prefixed tables for CHT and BLT).
+   In the model the database is a parameter of the sync (new_mach root cb db): a sync
+   reads and writes the store it was created on and nothing else, so running a sync
+   of kind k in a world of per-kind databases changes the database of k only. *)
+Definition sync_in_world (H : blob -> hash) (dec : blob -> option nodeview) (blen : blob -> N) (ideal : N)
+           (world : N -> store) (k : N) (root : hash) (cb : bool) (evs : list event) : N -> store :=
+  fun k' => if N.eqb k' k
+            then s_db (c_sched (m_c (mrun H dec blen ideal root cb (world k) (evs ++ [ECancel]))))
+            else world k'.
+
+Lemma sync_writes_only_its_own_database : forall H dec blen ideal world k root cb evs k',
+  k' <> k -> sync_in_world H dec blen ideal world k root cb evs k' = world k'.
+Proof. intros. unfold sync_in_world. apply N.eqb_neq in H0. now rewrite H0. Qed.
